@@ -71,6 +71,20 @@ func hasProp(ps []string, p string) bool {
 	return false
 }
 
+// routedTo reports whether an obligation with this label counts for property prop: by default every obligation of a
+// function counts for all the function's properties; a `route` line narrows a clause to some of them.
+func routedTo(c *Contract, label, prop string) bool {
+	if len(c.Routes) == 0 {
+		return true
+	}
+	for _, tok := range strings.FieldsFunc(label, func(r rune) bool { return r == ':' || r == '@' }) {
+		if ps, ok := c.Routes[tok]; ok {
+			return hasProp(ps, prop)
+		}
+	}
+	return true
+}
+
 func (eng *Engine) checkProperty(prop, tier string) int {
 	t0 := time.Now()
 	verif := *flagVerif
@@ -103,6 +117,9 @@ func (eng *Engine) checkProperty(prop, tier string) int {
 		execs = append(execs, fx)
 		for _, o := range fx.obls {
 			if tier != "thorough" && o.fx.con != nil && o.fx.con.Opts["slow"] != "" && strings.Contains(","+o.fx.con.Opts["slow"]+",", ","+o.Label+",") {
+				continue
+			}
+			if prop != "" && !routedTo(c, o.Label, prop) {
 				continue
 			}
 			all = append(all, o)
